@@ -213,7 +213,7 @@ type profile struct {
 
 var allActs = []string{"equivocate", "badparent", "staleqc", "inflate", "dupsigner", "relabel", "subquorum",
 	"wrongblock", "genesisview", "futuretimeout", "badtimeoutsig", "dupvote", "multivote", "zerovote", "unknownvote",
-	"strayvote", "replay", "liefetch", "silent", "staleTC", "swapids", "nosig", "sameview", "aggreplay", "forgevote", "forgetc", "forgecontrib", "aggtwin", "aggattest", "aggforge", "roguekey", "payloadeq", "qceq", "aggswap", "aggstale", "spoofproposer", "dupbatch", "zeroview", "anoncontrib", "lockless"}
+	"strayvote", "replay", "liefetch", "silent", "staleTC", "swapids", "nosig", "sameview", "aggreplay", "forgevote", "forgetc", "forgecontrib", "aggtwin", "aggattest", "aggforge", "roguekey", "payloadeq", "qceq", "aggswap", "aggstale", "spoofproposer", "dupbatch", "zeroview", "anoncontrib", "lockless", "noqctimeout"}
 
 func profileFor(prop string) profile {
 	pr := profile{byz: 0.6, acts: allActs, faults: 6, leaders: []string{"round-robin", "round-robin", "round-robin", "fixed", "carousel", "reputation", "scripted"}}
@@ -249,7 +249,7 @@ func profileFor(prop string) profile {
 		pr.forceWire = true
 	case "C08":
 		pr.byz = 0.7
-		pr.acts = []string{"futuretimeout", "futuretimeout", "badtimeoutsig", "badtimeoutsig", "staleTC", "replay", "silent", "equivocate", "relabel", "aggreplay", "nosig"}
+		pr.acts = []string{"futuretimeout", "futuretimeout", "badtimeoutsig", "badtimeoutsig", "staleTC", "replay", "silent", "equivocate", "relabel", "aggreplay", "nosig", "noqctimeout", "noqctimeout"}
 		pr.leaders = []string{"round-robin", "fixed", "scripted"}
 	case "C09":
 		pr.byz = 0.7
